@@ -192,6 +192,10 @@ def explore(fn, max_paths=4000):
         run = Run(prefix)
         run.unknown = False
         ses.run = run
+        if getattr(ses, "clear_sympy_cache", False):
+            # SymPy memoises evaluated relationals/assumptions: a decision taken on an earlier path must not be replayed from the cache
+            from sympy.core.cache import clear_cache
+            clear_cache()
         try:
             try:
                 val = fn()
@@ -599,6 +603,12 @@ def rebound(*bindings):
     saved = []
     try:
         for mod, name, new in bindings:
+            if isinstance(mod, dict):
+                had = name in mod
+                old = mod.get(name)
+                saved.append((mod, name, had, old))
+                mod[name] = new
+                continue
             had = name in vars(mod)
             old = vars(mod).get(name)
             saved.append((mod, name, had, old))
@@ -608,7 +618,12 @@ def rebound(*bindings):
         yield
     finally:
         for mod, name, had, old in reversed(saved):
-            if had:
+            if isinstance(mod, dict):
+                if had:
+                    mod[name] = old
+                else:
+                    mod.pop(name, None)
+            elif had:
                 setattr(mod, name, old)
             else:
                 delattr(mod, name)
